@@ -690,6 +690,7 @@ static void run_repetitive(int shard, int nshards, int r, int target_len, const 
     {13, {"x", "x,x"}, ",", {",", ""}},
     {14, {"x", "x,x"}, ",", {",", ""}},
     {10, {"x;", "x;x;"}, "", {"x", ";", "xx;", ""}},
+    {27, {"k(xy)", "k[xy]", "k(xy)k(xy)"}, "", {"k(xy]", "k[xy)", ""}},
   };
   long idx = 0;
   for (auto &sp : specs) {
